@@ -5,7 +5,8 @@ import json, os, re, subprocess, sys
 OUT = sys.argv[1]
 WT = '/tmp/sv/seedrun'
 RES = '/tmp/sv/seedrun_results.json'
-env = dict(os.environ, VERIF_REPO=WT, VERIF_WORK='/tmp/sv/work', VERIF_EVIDENCE='/tmp/sv/evidence', VERIF_REPLAYS='/tmp/sv/replays')
+HERE = os.path.dirname(os.path.dirname(os.path.abspath(__file__)))
+env = dict(os.environ, VERIF_VX='/verif/target/release/vx', VERIF_REPO=WT, VERIF_WORK='/tmp/sv/work', VERIF_EVIDENCE='/tmp/sv/evidence', VERIF_REPLAYS='/tmp/sv/replays')
 if not os.path.exists(WT):
     subprocess.run(f'git -C /repo worktree add -q --detach {WT} HEAD', shell=True, check=True)
 conf = json.load(open('/tmp/sv/results.json'))
@@ -24,7 +25,7 @@ for sid in ids:
     prop = sid.split('-')[0]
     meta = json.load(open(os.path.join(d, 'meta.json')))
     r = {'property': prop, 'checks': {}}
-    c = subprocess.run(['python3', '-m', 'vf.check', '--all'], cwd='/verif', env=env, capture_output=True, text=True)
+    c = subprocess.run(['python3', '-m', 'vf.check', '--all'], cwd=HERE, env=env, capture_output=True, text=True)
     lines = [l for l in c.stdout.split('\n') if l.startswith(('VIOLATION', 'INCONCLUSIVE', 'KNOWN'))]
     summ = [l for l in c.stdout.split('\n') if l.startswith('SUMMARY')]
     if summ:
